@@ -355,6 +355,10 @@ pub fn pm1_impl(n: &Uint, b1: u64, b2: f64, verbosity: Verbosity) -> Option<(Vec
     };
     if b2 > MULTIEVAL_THRESHOLD {
         let (mut f2, n2) = pm1_stage2_polyeval(&zn, b2, g);
+        if f2.contains(n) {
+            // All prime factors were caught by the same step: no split.
+            return None;
+        }
         factors.append(&mut f2);
         nred = n2;
         logtime();
